@@ -64,7 +64,8 @@ def conv_impls(F):
 def run(F, rep, tier="quick", extra=None, only=None):
     rep.trusted += ["rustc name resolution / type check", "operator table of rules/sym.py", "published definitions transcribed in rules/convrefs.py and rules/consts.py",
                     "axioms: cbrt(x)^3=x, sqrt(x)^2=x, powf(x,1/3)=cbrt(x)"]
-    S = Session(F, app_canon=app_canon)
+    S = Session(F, app_canon=app_canon, positive=("wp.x", "wp.y", "wp.z"))
+    rep.assumptions.append("white point tristimulus values wp.x, wp.y, wp.z are positive (CONST-WP checks the literals)")
     impls = conv_impls(F)
     # ------------------------------------------------------------ direct conversions
     for (tgt, src), ref in DIRECT.items():
@@ -108,6 +109,9 @@ def run(F, rep, tier="quick", extra=None, only=None):
                 return Struct(rect, out)
             check_ref(rep, "ALG-REF", "conv:%s<-%s" % (rk, pk), S, b, exp_rect, names=["c"])
 
+    # ------------------------------------------------------------ same-space shortcuts (TypeId guards)
+    from .c01 import check_guards
+    check_guards(F, rep, S)
     # ------------------------------------------------------------ constant tables
     consts.check_rgb_spaces(F, rep, S)
     consts.check_white_points(F, rep, S)
